@@ -16,7 +16,7 @@ import re
 import shutil
 import subprocess
 
-from .. import cbi, core, runner, scen, trace_preproc
+from .. import cbi, core, render, runner, scen, trace_preproc
 
 CFG = """SPECIFICATION Spec
 CONSTANTS
@@ -35,6 +35,8 @@ def gcc_agrees(m, sc, i):
     a = ["gcc", "-E", "-P"]
     if e["x"] != "U":
         a.append("-DX")
+    if e.get("hdr", "U") != "U":
+        a.append("-DHDR=" + render.val_text(e["hdr"]))
     for r in e["idirs"]:
         a += ["-isystem" if r["sys"] else "-I", m.dir_path(r["d"])]
     for n in e["forced"]:
